@@ -149,6 +149,11 @@ def blocks(tier):
         for c in chunk(list(range(nops)), pieces):
             out.append({"space": "write", "tier": tier, "shape": list(shape), "lat": lat, "depth": depth,
                         "vals": write_vals(tier), "first": c})
+    # the same single writes on arrays whose coordinate mapping is not in dimension order (depth 1)
+    for lat, shape, nops, depth, cost in systems:
+        if len(shape) >= 2 and lat == write_lats(tier)[0]:
+            out.append({"space": "write", "tier": tier, "shape": list(shape), "lat": lat, "depth": 1, "layout": "shuffled",
+                        "vals": write_vals(tier), "first": list(range(nops))})
     return out
 
 
@@ -405,18 +410,22 @@ def op_value(shape, op):
 
 
 class WriteSystem:
-    def __init__(self, shape, lat):
+    def __init__(self, shape, lat, layout="dims"):
         self.shape = tuple(shape)
         self.lat = lat
+        self.layout = layout  # "dims": coordinates given in dimension order; "shuffled": reversed order after a scalar coordinate
         self.nd = len(self.shape)
         self.axes = [axis_coords(lat, a, n) for a, n in enumerate(self.shape)]
         self.size = int(np.prod(self.shape))
 
     def build(self, flat):
         """A fresh DataArray holding the row-major list ``flat`` on the model coordinates."""
-        return xr.DataArray(
-            np.array(flat, dtype=np.float64).reshape(self.shape), dims=list(DIMS[:self.nd]),
-            coords={DIMS[a]: xr.Variable(DIMS[a], np.array(c), attrs={"step": s}) for a, (c, s) in enumerate(self.axes)})
+        coords = {DIMS[a]: xr.Variable(DIMS[a], np.array(c), attrs={"step": s}) for a, (c, s) in enumerate(self.axes)}
+        if self.layout == "shuffled":
+            # the order of the coordinate mapping is independent of the order of the dimensions, and an array may carry
+            # scalar (non-dimension) coordinates, e.g. after isel(channel=0)
+            coords = dict([("meta", 7.0)] + list(reversed(list(coords.items()))))
+        return xr.DataArray(np.array(flat, dtype=np.float64).reshape(self.shape), dims=list(DIMS[:self.nd]), coords=coords)
 
     def initial(self):
         return [100.0 + i for i in range(self.size)]
@@ -509,7 +518,7 @@ def judge_write(out, ws, op, record, depth_before):
 
 
 def explore_writes(block, rec):
-    ws = WriteSystem(block["shape"], block["lat"])
+    ws = WriteSystem(block["shape"], block["lat"], block.get("layout", "dims"))
     OPS = write_ops(ws.shape, block["vals"])
     first = [OPS[k] for k in block["first"]]
     depth = block["depth"]
@@ -535,8 +544,10 @@ def explore_writes(block, rec):
     def on_transition(h2, st, op, nxt):
         record = side.pop("rec")
         case = {"space": "write", "shape": list(ws.shape), "lat": ws.lat, "ops": h2[1:]}
+        if ws.layout != "dims":
+            case["layout"] = ws.layout
         post = record["got"] if record["got"] is not None else list(st[1])
-        out = Out(case, key=["write", list(ws.shape), ws.lat, post])
+        out = Out(case, key=["write", list(ws.shape), ws.lat, ws.layout, post])
         out.nontrivial = judge_write(out, ws, op, record, side["depth"])
         out.klass = "write:d%d:%s:%s" % (len(h2) - 1, "reject" if record["outside"] else "write",
                                          "agree" if not record["problems"] else "differ")
@@ -549,7 +560,7 @@ def explore_writes(block, rec):
 
 def run_write_history(case):
     """Replay of one write history: every step is executed and judged."""
-    ws = WriteSystem(case["shape"], case["lat"])
+    ws = WriteSystem(case["shape"], case["lat"], case.get("layout", "dims"))
     flat = ws.initial()
     out = Out(case)
     nt = False
